@@ -160,6 +160,69 @@ theorem stmtPhase1_insert_keys (sc : Schema) (cfg : Cfg) (t : Table) (args : Arg
     simp only [Except.ok.injEq, Prod.mk.injEq] at h
     exact h.2.2.symm
 
+theorem stmtPhase1_updateLim (sc : Schema) (cfg : Cfg) (t : Table) (args : Args)
+    (sets : List (Nat × SetE)) (w : Cond) (ord : List (Nat × Bool)) (lim : Nat)
+    (t' : Table) (item : Item) (keys : List Key)
+    (h : stmtPhase1 sc cfg t args (.updateLim sets w ord lim) = .ok (t', item, keys)) :
+    t' = (t.map fun r => if (limitedKeys sc t args w ord lim).contains (keyOf sc r)
+      then applySets args sets r else r) ∧
+    keys = (t.filter fun r => (limitedKeys sc t args w ord lim).contains (keyOf sc r)).map (keyOf sc) := by
+  simp only [stmtPhase1, apply] at h
+  split at h
+  · cases h
+  · simp only [Except.ok.injEq, Prod.mk.injEq] at h
+    exact ⟨h.1.symm, h.2.2.symm⟩
+
+theorem stmtPhase1_deleteLim (sc : Schema) (cfg : Cfg) (t : Table) (args : Args)
+    (w : Cond) (ord : List (Nat × Bool)) (lim : Nat) (t' : Table) (item : Item) (keys : List Key)
+    (h : stmtPhase1 sc cfg t args (.deleteLim w ord lim) = .ok (t', item, keys)) :
+    t' = (t.filter fun r => !(limitedKeys sc t args w ord lim).contains (keyOf sc r)) ∧
+    keys = (t.filter fun r => (limitedKeys sc t args w ord lim).contains (keyOf sc r)).map (keyOf sc) := by
+  simp only [stmtPhase1, apply, Except.ok.injEq, Prod.mk.injEq] at h
+  exact ⟨h.1.symm, h.2.2.symm⟩
+
+/-- INSERT … ON DUPLICATE KEY UPDATE: the new table is the old rows, changed only under the new rows'
+    keys and never in their key, followed by inserted rows; the lock keys are the keys of every row now
+    stored under one of the new rows' keys -/
+theorem stmtPhase1_upsert (sc : Schema) (cfg : Cfg) (t : Table) (args : Args)
+    (rows : List (List Expr)) (assign : List (Nat × UpSrc)) (t' : Table) (item : Item) (keys : List Key)
+    (ha : ∀ p ∈ assign, p.1 ∉ sc.pk)
+    (h : stmtPhase1 sc cfg t args (.upsert rows assign) = .ok (t', item, keys)) :
+    ∃ (g : Row → Row) (ins : List Row) (K : List Key), t' = t.map g ++ ins ∧
+      (∀ r, keyOf sc (g r) = keyOf sc r) ∧ (∀ r, keyOf sc r ∉ K → g r = r) ∧
+      (∀ x ∈ ins, keyOf sc x ∈ K) ∧
+      keys = ((t.filter fun r => K.contains (keyOf sc r)).map g ++ ins).map (keyOf sc) := by
+  simp only [stmtPhase1, apply, Except.ok.injEq, Prod.mk.injEq] at h
+  obtain ⟨rfl, _, rfl⟩ := h
+  generalize rows.map (fun es => es.map (evalE [] args)) = news
+  obtain ⟨g, ins, h1, h2, h3, h4, _⟩ := upsert_fold sc assign ha news t
+  refine ⟨g, ins, news.map (keyOf sc), h1, fun r => (h2 r).1, h3, fun x hx => (h4 x hx).1, ?_⟩
+  rw [h1, ups_filter_sel sc t _ g ins (fun r => (h2 r).1) (fun x hx => (h4 x hx).1)]
+
+/-- a table of that shape: a key that is not among those lock keys is looked up as before -/
+theorem lookup_upsert (sc : Schema) (t : Table) (g : Row → Row) (ins : List Row) (K : List Key) (k : Key)
+    (hg : ∀ r, keyOf sc (g r) = keyOf sc r) (hfix : ∀ r, keyOf sc r ∉ K → g r = r)
+    (hk : k ∉ ((t.filter fun r => K.contains (keyOf sc r)).map g ++ ins).map (keyOf sc)) :
+    lookup sc (t.map g ++ ins) k = lookup sc t k := by
+  simp only [List.map_append, List.mem_append, not_or] at hk
+  unfold lookup
+  have hn : ins.find? (fun r => keyOf sc r == k) = none := by
+    apply find?_key_none
+    intro x hx hxk
+    exact hk.2 (List.mem_map.2 ⟨x, hx, hxk⟩)
+  have hm : (t.map g).find? (fun r => keyOf sc r == k) = t.find? (fun r => keyOf sc r == k) := by
+    apply find?_map_fix
+    intro r hr
+    refine ⟨by rw [hg r], ?_⟩
+    intro hp
+    have hrk : keyOf sc r = k := by simpa using hp
+    apply hfix
+    intro hmem
+    apply hk.1
+    refine List.mem_map.2 ⟨g r, List.mem_map.2 ⟨r, List.mem_filter.2 ⟨hr, by simpa using hmem⟩, rfl⟩, ?_⟩
+    rw [hg r, hrk]
+  simp [List.find?_append, hn, hm]
+
 /-- one statement: a key outside the lock keys is looked up as before -/
 theorem stmt_lookup_unchanged (sc : Schema) (cfg : Cfg) (t : Table) (args : Args) (s : Stmt)
     (t' : Table) (item : Item) (keys : List Key)
@@ -178,9 +241,17 @@ theorem stmt_lookup_unchanged (sc : Schema) (cfg : Cfg) (t : Table) (args : Args
     obtain ⟨rfl, rfl⟩ := stmtPhase1_insert sc cfg t args rows t' item keys hu h
     exact lookup_insert sc t _ k hk
   | failing s => simp [stmtPhase1] at h
-  | upsert rows assign => exact absurd hs (by simp [StmtWF])
-  | updateLim sets w ord lim => exact absurd hs (by simp [StmtWF])
-  | deleteLim w ord lim => exact absurd hs (by simp [StmtWF])
+  | upsert rows assign =>
+    obtain ⟨g, ins, K, rfl, hg, hfix, _, rfl⟩ :=
+      stmtPhase1_upsert sc cfg t args rows assign t' item keys (fun p hp => (hs.2 p hp).2) h
+    exact lookup_upsert sc t g ins K k hg hfix hk
+  | updateLim sets w ord lim =>
+    obtain ⟨rfl, rfl⟩ := stmtPhase1_updateLim sc cfg t args sets w ord lim t' item keys h
+    exact lookup_update sc t _ _ k
+      (fun r _ => applySets_keyOf sc args sets r (fun p hp => (hs p hp).2)) hk
+  | deleteLim w ord lim =>
+    obtain ⟨rfl, rfl⟩ := stmtPhase1_deleteLim sc cfg t args w ord lim t' item keys h
+    exact lookup_delete sc t _ k hk
 
 /-- a whole local transaction: a key outside the lock keys is looked up as before -/
 theorem local_lookup_unchanged (sc : Schema) (cfg : Cfg) : ∀ (ltx : LocalTx) (t t' : Table) (b : Branch),
@@ -207,7 +278,7 @@ theorem local_lookup_unchanged (sc : Schema) (cfg : Cfg) : ∀ (ltx : LocalTx) (
         obtain ⟨rfl, rfl⟩ := h
         simp only [List.mem_append, not_or] at hk
         have hs1 : StmtWF sc s := hs (s, args) (by simp)
-        obtain ⟨⟨hu1, hsh1⟩, _⟩ := stmt_restore sc cfg t args s t1 item keys hu hsh hs1 h1
+        obtain ⟨hu1, hsh1⟩ := stmt_wf_after sc cfg t args s t1 item keys hu hsh hs1 h1
         rw [ih t1 t2 b2 hu1 hsh1 (fun q hq => hs q (by simp [hq])) h2 k hk.2]
         exact stmt_lookup_unchanged sc cfg t args s t1 item keys hu hs1 h1 k hk.1
 
